@@ -947,6 +947,32 @@ def witnesses(R):
         R.violation("a name stored under two MIME classes: the latest bytes are not read back / a stale twin of "
                     "the other form survives / overwrite=False did not refuse", case,
                     {"impl": _short(seq), "expected": _short(want), "both_forms_exist": twins})
+    # stratified two-step histories on one name (round-4 seeds): a second store with overwrite and
+    # DIFFERENT bytes of the SAME length must replace the content (plain and .gz forms, files and
+    # chunks); a refused no-overwrite store must leave the first content readable
+    for gzflag in (False, True):
+        for mime in ("application/octet-stream", "image/jpeg"):
+            a2 = FileAccessor(os.path.join(sb, "w", f"two-{int(gzflag)}-{mime[-4:]}"), gzip=gzflag)
+            c2 = (64, 128, 0, 64, 0, 64)
+            got = [run_impl(lambda: a2.store_chunk(b"AAAA", "k", c2, mime_type=mime)),
+                   run_impl(lambda: a2.store_chunk(b"BBBB", "k", c2, mime_type=mime)),
+                   run_impl(lambda: a2.fetch_chunk("k", c2)),
+                   run_impl(lambda: a2.store_chunk(b"CCCC", "k", c2, mime_type=mime, overwrite=False)),
+                   run_impl(lambda: a2.fetch_chunk("k", c2)),
+                   run_impl(lambda: a2.store_file("f", b"1111", mime_type=mime)),
+                   run_impl(lambda: a2.store_file("f", b"2222", mime_type=mime)),
+                   run_impl(lambda: a2.fetch_file("f")),
+                   run_impl(lambda: a2.file_exists("f")),
+                   run_impl(lambda: a2.store_file("f", b"3333", mime_type=mime, overwrite=True)),
+                   run_impl(lambda: a2.fetch_file("f"))]
+            exp = [["ok", None], ["ok", None], ["ok", b"BBBB"], ["AccessErr"], ["ok", b"BBBB"],
+                   ["ok", None], ["AccessErr"], ["ok", b"1111"], ["ok", True], ["ok", None], ["ok", b"3333"]]
+            c3 = {"regression": "same-length overwrite / refused no-overwrite store then read", "gzip": gzflag, "mime": mime}
+            R.case(c3, nontrivial=True)
+            if got != exp:
+                R.violation("two stores on one name: the latest permitted store is not what is read back, or a "
+                            "refused store damaged the stored content", c3,
+                            {"impl": _short(got), "expected": _short(exp)})
     for what, fn, leftover in checks:
         out = run_impl(fn)
         case = {"regression": what}
